@@ -109,6 +109,23 @@ Theorem C03_consumer_throw_restores :
 Proof. exact consumer_throw_restores. Qed.
 Print Assumptions C03_consumer_throw_restores.
 
+(* ANY consumer: an arbitrary sequence of __next__ / close() (= drop) / throw() on one generator
+   object (each call under the heap the previous one left): it stays consistent with the heap h0 of
+   its creation - closing or dropping it at the end gives back h0 - and directly after a close or a
+   throw the heap is h0 *)
+Theorem C03_any_consumer_restores :
+  forall (L X E P : Type) (mkleaf : X -> heap -> L) (lnext : nat -> heap -> L -> option (heap * L * res))
+         (lclose : heap -> L -> heap) (prog : P -> code X E P * E) (gho : E -> nat) (LInv : heap -> L -> heap -> Prop),
+  (forall x h, LInv h (mkleaf x h) h) ->
+  (forall n h0 l hc h' l' r, LInv h0 l hc -> lnext n hc l = Some (h', l', r) -> LInv h0 l' h' /\ (r = RStop -> h' = h0)) ->
+  (forall h0 l hc, LInv h0 l hc -> lclose hc l = h0) ->
+  forall n d ops h0 it h hf itf rs,
+    Inv LInv h0 it h -> fdrive mkleaf lnext lclose prog gho n d h it ops = Some (hf, itf, rs) ->
+    Inv LInv h0 itf hf /\ iclose lclose hf itf = h0 /\
+    (match rev ops with (FClose | FThrow) :: _ => hf = h0 | _ => True end).
+Proof. exact fdrive_restores. Qed.
+Print Assumptions C03_any_consumer_restores.
+
 (* THE ENGINE RUNNING COMPILED CODE (IRMachine.v): for every IR program (every compiled program),
    every fact database, every set of registered Python predicates written as ARBITRARY machine code
    (they may raise at any step), the builtins =, \=, call/N, once/1, findall/3 as frames, every
